@@ -240,13 +240,14 @@ and gen_redex r m e t size =
 
 (* a definition group *)
 and gen_group r m e t size =
-  let n = 1 + Rng.int r 3 in
+  (* usually 1-3 definitions; one time in four a longer group (4-6) *)
+  let n = if size >= 8 && Rng.chance r 1 4 then 4 + Rng.int r 3 else 1 + Rng.int r 3 in
   let per = max 1 (size / (n + 1)) in
   let defs = ref [] in
   let e' = ref e in
   let i = ref 0 in
   while !i < n do
-    (match Rng.int r 11 with
+    (match Rng.int r 12 with
      | 0 | 1 when per >= 3 ->
        (* recursive function with structural descent on its int argument *)
        let f = fresh_name e "f" in
@@ -302,6 +303,19 @@ and gen_group r m e t size =
          defs := (w, None, wbody) :: !defs;
          e' := { !e' with deps = (w, et) :: !e'.deps }
        end
+     | 11 ->
+       (* two independent functions with a computed (non-value) definition between them that the second one
+          mentions, and a later computed definition that calls it: the shape on which reordering the functions
+          matters to the definition-order rule *)
+       let g = fresh_name e "g" and a = fresh_name e "v" and f = fresh_name e "h" and rr = fresh_name e "v" in
+       let x1 = fresh_name e "x" and x2 = fresh_name e "x" in
+       let fty = Arrow (Int, Int) in
+       let gdef = SLam (x1, false, Some SInt, SBin (Rng.pick r [ "+"; "*"; "-" ], SVar x1, SLit (string_of_int (1 + Rng.int r 5)))) in
+       let adef = SBin ("+", SLit (string_of_int (Rng.int r 7)), gen r m !e' Int (max 1 (per / 3))) in
+       let fdef = SLam (x2, false, Some SInt, SBin (Rng.pick r [ "+"; "-" ], SVar x2, SVar a)) in
+       let rdef = SApp (SVar f, SLit (string_of_int (Rng.int r 9))) in
+       defs := (rr, Some SInt, rdef) :: (f, Some (src_of_ty fty), fdef) :: (a, Some SInt, adef) :: (g, Some (src_of_ty fty), gdef) :: !defs;
+       e' := { !e' with vars = (rr, Int) :: (f, fty) :: (a, Int) :: (g, fty) :: !e'.vars }
      | 10 ->
        (* a polymorphic identity whose body goes through a local group of aliases of its type parameter (a nested
           group under binders whose definitions mention variables bound outside it and whose body type mentions
@@ -602,7 +616,20 @@ let rec reorder (r : Rng.t) (s : src) : src =
         e2 :: e1 :: rest
       | e :: rest -> e :: swap rest
       | [] -> [] in
-    SLet (swap (List.map (fun (x, an, d) -> (x, an, reorder r d)) ds), reorder r b)
+    let ds' = List.map (fun (x, an, d) -> (x, an, reorder r d)) ds in
+    (* half of the time two independent functions that are NOT adjacent change places (a function then moves
+       across the other definitions between them, e.g. in front of a non-function definition it mentions) *)
+    let funs = List.filter (fun i -> is_fun (List.nth ds' i)) (List.init (List.length ds') (fun i -> i)) in
+    let pairs = List.concat_map (fun i -> List.filter_map (fun j ->
+        if j > i + 1 then
+          (let (x1, _, d1) = List.nth ds' i and (x2, _, d2) = List.nth ds' j in
+           if not (List.mem x2 (free_names d1)) && not (List.mem x1 (free_names d2)) then Some (i, j) else None)
+        else None) funs) funs in
+    let ds'' = if pairs <> [] && Rng.bool r then
+        (let (i, j) = Rng.pick r pairs in
+         List.mapi (fun k e -> if k = i then List.nth ds' j else if k = j then List.nth ds' i else e) ds')
+      else swap ds' in
+    SLet (ds'', reorder r b)
   | SLam (x, im, an, b) -> SLam (x, im, an, reorder r b)
   | SApp (a, b) -> SApp (reorder r a, reorder r b)
   | SBin (o, a, b) -> SBin (o, reorder r a, reorder r b)
